@@ -190,6 +190,8 @@ pub struct Interp<'t> {
     pub kf_byvalue_lowered_switch: bool,
     /// set once a known finding was observed: the rest of the run is tainted and is not executed
     pub abort_run: bool,
+    /// chunks were leaked on purpose at the end of the run (leaked claim guard): skip the 'everything released' check
+    pub skip_final_ledger: bool,
 }
 
 pub use sim::pattern::{fill, first_mismatch, pat};
@@ -223,6 +225,7 @@ impl<'t> Interp<'t> {
             failed_calls: 0,
             kf_byvalue_lowered_switch: false,
             abort_run: false,
+            skip_final_ledger: false,
             verbose: std::env::var_os("SIM_VERBOSE").is_some(),
         }
     }
